@@ -140,6 +140,7 @@ func c05(c *Ctx) {
 	c.ExpectAll("checkpoint/resize-size", c.CallArgs(ck, trunc, 2), pat("litefs.(*DB).readWALPageOffsets(@@)#1"), 1, "the database is resized to the last commit frame's size", "size from the commit frame (C03/C17)")
 	c.After("checkpoint/shm-rewritten", ck, twal, call("updateSHM"), nil, 1, "after the WAL is truncated every success exit rewrites the SHM header", "SQLite readers would index frames that no longer exist")
 	c.After("checkpoint/walchksums-reset", ck, twal, p.Writes("litefs.DB.wal.chksums"), nil, 1, "after the WAL is truncated the WAL page-checksum overlay is cleared", "C04: checksums of frames that no longer exist would override the database's")
+	c.ckptCopiesAll("checkpoint")
 	c.ExpectAll("checkpoint/truncate-arg", c.CallArgs(ck, twal, 2), "0", 1, "the WAL is truncated to zero", "")
 	c.ErrHandled("checkpoint/errors", ck, p.PlainCalls("litefs.(*DB).readWALPageOffsets", "litefs.(*DB).writeDatabasePage", "litefs.(*DB).truncateDatabase", "litefs.(*DB).TruncateWAL", "litefs.(*DB).updateSHM", "io.ReadFull", "os.(*File).Seek"), nil, 7,
 		"every step of CheckpointNoLock propagates its error", "a failed page copy followed by WAL truncation loses the page")
@@ -207,8 +208,19 @@ func (c *Ctx) rollbackFamily(prefix string) {
 	}
 	c.ExpectAll(prefix+"/truncate-size", c.CallArgs(rb, trunc, 2), pat("litefs.NewJournalReader(@@).commit"), 1, "the size restored is the journal header's initial database size", "C17: rollback restores exactly the pre-transaction size")
 	c.NoPath(prefix+"/no-copy-after-truncate", rb, trunc, seg, 1, "no journal page is copied back after the resize", "pages beyond the restored size would be re-extended")
-	c.Before(prefix+"/sync-before-unlink", rb, rmJournal, c.fileCall("Sync", "DatabasePath"), 1,
-		"the database file is fsynced before the journal is removed", "removing the journal commits the rollback; the restored pages must be durable first")
+	noDB := GP("os.IsNotExist(litefs.OS.OpenFile(p0.os, @@DatabasePath@@)#1)", true)
+	c.BeforeG(prefix+"/sync-before-unlink", rb, rmJournal, c.fileCall("Sync", "DatabasePath"), gs(noDB), 1,
+		"the database file is fsynced before the journal is removed (unless there is no database file: the journal of a dropped database)", "removing the journal commits the rollback; the restored pages must be durable first")
+	c.AfterEdge(prefix+"/journal-of-dropped-database-removed", rb, noDB, rmJournal, func(in ssa.Instruction) bool {
+		r, ok := in.(*ssa.Return)
+		return ok && len(r.Results) == 1 && p.Render(returnedValue(r, 0)) == "nil"
+	}, 1, "a journal whose database file does not exist is removed: recovery does not fail on it and never returns success with the journal left behind",
+		"F46: a journal created after a drop (by a connection opened before it) made every later start fail in recovery")
+	c.NoPathFromEdge(prefix+"/missing-database-not-an-error", rb, noDB, func(in ssa.Instruction) bool {
+		r, ok := in.(*ssa.Return)
+		return ok && len(r.Results) == 1 && strings.Contains(p.Render(returnedValue(r, 0)), "DatabasePath(p0)") && strings.HasSuffix(p.Render(returnedValue(r, 0)), "#1")
+	}, 1, "the 'no such file' error of the database open is never returned", "")
+	c.NoPathFromEdge(prefix+"/no-database-nothing-restored", rb, noDB, Any(seg, trunc), 1, "without a database file nothing is copied back or resized", "")
 	c.NoPath(prefix+"/no-write-after-unlink", rb, rmJournal, Any(seg, trunc), 1, "nothing is written to the database after the journal is removed", "a crash would leave a half-restored database without a journal")
 	c.BeforeG(prefix+"/journal-removed", rb, p.SuccessReturn, rmJournal, gs(GP("os.IsNotExist(litefs.OS.OpenFile(p0.os, @@JournalPath@@)#1)", true)), 1,
 		"unless no journal exists, every success exit has removed the journal", "a hot journal left behind is replayed by SQLite against a database LiteFS has already moved on")
